@@ -33,7 +33,8 @@ type c03Case struct {
 	Warm bool `json:"warm,omitempty"`
 }
 
-var c03Alpha = []string{"a", "b", "c", "[", "\x1b", "\x18", "\x01", "ä"}
+// (界: a key above U+00FF, typed as its three UTF-8 bytes; tables holding it run with convert-meta off)
+var c03Alpha = []string{"a", "b", "c", "[", "\x1b", "\x18", "\x01", "ä", "界"}
 
 // typed form of a stored sequence
 func c03Typed(seq string) string { return keyBytes(seq) }
@@ -87,6 +88,11 @@ func c03Gen(r *rand.Rand, tier string, idx int) any {
 		}
 		seen[s] = true
 		c.Binds = append(c.Binds, c03Bind{Seq: s})
+	}
+	for _, b := range c.Binds {
+		if strings.Contains(b.Seq, "界") {
+			c.Inputrc = "set convert-meta off\nset input-meta on\nset output-meta on\n"
+		}
 	}
 	// 0..2 macros whose bodies are bound (non-macro) sequences
 	nm := r.Intn(3)
@@ -264,7 +270,7 @@ func c03ModelX(binds []c03Bind, chunks []string, vi bool) (log []c03Inv, ambiguo
 			ambiguous = "unbounded macro expansion"
 			return
 		}
-		cur += string(k)
+		cur += string([]byte{k})
 		e, l := exact(cur), longer(cur)
 		switch {
 		case e >= 0 && !l:
